@@ -11,7 +11,7 @@ from ..harness import qcall, tree_hash
 
 ID = "C10"
 LEVEL = "exploration"
-BUDGET = {"quick": 800, "thorough": 12000}
+BUDGET = {"quick": 800, "thorough": 120000}
 TECHNIQUE = "property-based testing: covering grid from the generator, bit-exact per dtype; exhaustive completion orders of the per-file tasks with a schedule-owning pool"
 RULE = ("Hypothesis-generated 3D plotfiles (1-3 nested levels, partial refinement, 1-4 binary files per level in any "
         "on-disk order, special-float payloads) x field x dtype in {float64, float32} x level limit (-l absent or "
